@@ -53,7 +53,7 @@ def main():
                         results[m["name"]] = {"status": "unit-tests-fail"}; continue
             t0 = time.time()
             e = env(); e["VERIF_REPO"] = scratch
-            r = subprocess.run([os.path.join(ROOT, "check"), pid, "--tier", tier], env=e, stdout=subprocess.PIPE, stderr=subprocess.PIPE, text=True)
+            r = subprocess.run([os.path.join(ROOT, "check"), pid, "--tier", tier], env=e, stdout=subprocess.PIPE, stderr=subprocess.PIPE, text=True, timeout=1500)
             status = {0: "SURVIVED", 1: "killed", 2: "inconclusive"}.get(r.returncode, "rc%d" % r.returncode)
             viol = [l for l in r.stdout.splitlines() if l.startswith("VIOLATION")]
             keys = re.findall(r"key=(\S+)", r.stderr)
